@@ -125,6 +125,17 @@ func runDetCase(c DetCase) Outcome {
 		}
 		reps = append(reps, &detReplica{node: n, dir: dir})
 	}
+	// when the history restarts the chain from an export, every replica starts from the same export
+	w.sim.OnReimport = func(reboot func(old *world.Node) (*world.Node, error)) error {
+		for _, r := range reps {
+			n, err := reboot(r.node)
+			if err != nil {
+				return err
+			}
+			r.node = n // in memory from here on; the directory of an on-disk replica is removed at the end
+		}
+		return nil
+	}
 	bi := 0
 	w.hook = func(blk world.Block, txs [][]byte, res *world.StepResult) *Failure {
 		mode := 0
@@ -152,7 +163,7 @@ func runDetCase(c DetCase) Outcome {
 			case 3:
 				prevProcs = runtime.GOMAXPROCS(4)
 			case 4:
-				if blk.Height > 1 {
+				if blk.Height > w.sim.Chain.Initial {
 					n2, err := r.node.Restart()
 					if err != nil {
 						return failf("restart", "restart-failed", "%v", err)
@@ -175,7 +186,7 @@ func runDetCase(c DetCase) Outcome {
 			if a, b := engLogKey(res.EngLog), engLogKey(r.node.Eng.TakeLog()); a != b {
 				return failf("same-engine-calls", "engine-calls-differ", "%s: engine calls %s vs %s", what, a, b)
 			}
-			if mode == 1 && blk.Height > 1 {
+			if mode == 1 && blk.Height > w.sim.Chain.Initial {
 				// crash between FinalizeBlock and Commit: the block is executed again after the restart
 				n2, err := r.node.Restart()
 				if err != nil {
